@@ -4,11 +4,21 @@
 -/
 import BartiqModel
 import Generated.Stages
+import Generated.Tables
 open Bartiq Sexp
 
 def errSexp (e : Err) : Sexp := l [a "err", a e.kind, a (e.msg.replace " " "_" |>.replace "(" "[" |>.replace ")" "]")]
 
+def genTables : Tables :=
+  { binOps := Generated.binOpTable, unaryOps := Generated.unaryOpTable,
+    builtins := Generated.builtinNames, specialParams := Generated.specialParams }
+
 def respond (line : String) : String :=
+  if line.startsWith "parse " then
+    match parseExpr genTables (line.drop 6).toString with
+    | some e => Sexp.toString (l [a "ok", e.toSexp])
+    | none => "(err parse)"
+  else
   match Sexp.parseMany line with
   | none => "(bad-request unparsable)"
   | some [] => "(bad-request empty)"
